@@ -145,7 +145,7 @@ Theorem C11_mask_second_use_generates : forall fmt d bbox c,
   d_tag_ok d = true -> d_geom_ok d = true -> d_cacheable d = false ->
   String.eqb (d_id d) "" = false -> str_in (d_id d) (c_masks c) = true ->
   forall i k, gen_id fmt (id_fuel c) "mask" (c_all_ids c) (c_mask c) = Some (i, k) ->
-  d_content d (c_set_masks c k (c_masks c)) = (c_set_masks c k (c_masks c), true) -> d_content_obb d = false ->
+  d_content d (c_set_masks c k (c_masks c)) = (c_set_masks c k (c_masks c), true) -> d_content_obb d = false -> d_link d = None ->
   fst (mask_convert fmt d (Some bbox) c) = Some i.
 Proof. exact mask_second_use_generates. Qed.
 Print Assumptions C11_mask_second_use_generates.
@@ -317,6 +317,48 @@ Theorem C11_noninvertible_is_invalid : forall t, ts_det t == 0 -> usvg_ts_valid 
 Proof. exact noninvertible_is_invalid. Qed.
 Print Assumptions C11_noninvertible_is_invalid.
 
+(* Every route to content conversion passes the non-rendered filter first.  call_sites (cut from ALL of crates/usvg/src/parser/*.rs on
+   every run) lists each call of convert_element / convert_children / convert_clip_path_elements / convert_group / convert_element_impl /
+   convert_clip_path_elements_impl / convert_path / use_node::convert / convert_svg / its local convert_children / switch::convert /
+   text::convert / image::convert with the guard in front of it: an is_visible_element test on the same subject earlier in the enclosing
+   function; the enclosing function's own vetted node; the symbol child of a vetted use; or a callee that filters by itself (dispatch
+   tables: D_Visible before D_Use / D_Switch / D_Group).  A new unguarded call site yields SG_None and breaks C11_routes_guarded. *)
+Theorem C11_routes_guarded : routes_guarded call_sites = true.
+Proof. exact routes_all_guarded. Qed.
+Print Assumptions C11_routes_guarded.
+
+Theorem C11_dispatch_guarded : dispatch_guarded elem_dispatch = true /\ dispatch_guarded clip_dispatch = true.
+Proof. exact dispatch_guarded_both. Qed.
+Print Assumptions C11_dispatch_guarded.
+
+(* what the checker means, for ALL tables *)
+Theorem C11_routes_reject_unguarded : forall sites callee encl,
+  In (callee, encl, SG_None) sites -> routes_guarded sites = false.
+Proof. exact routes_reject_unguarded. Qed.
+Print Assumptions C11_routes_reject_unguarded.
+
+Theorem C11_routes_reject_foreign_symbol : forall sites callee encl,
+  In (callee, encl, SG_SymbolOfUse) sites -> symbol_site callee encl = false -> routes_guarded sites = false.
+Proof. exact routes_reject_foreign_symbol. Qed.
+Print Assumptions C11_routes_reject_foreign_symbol.
+
+Theorem C11_routes_reject_unfiltered_callee : forall sites callee encl,
+  In (callee, encl, SG_Internal) sites -> internally_guarded callee = false -> routes_guarded sites = false.
+Proof. exact routes_reject_unfiltered_callee. Qed.
+Print Assumptions C11_routes_reject_unfiltered_callee.
+
+Theorem C11_routes_own_node_needs_vetted_callers : forall sites callee encl,
+  routes_guarded sites = true -> In (callee, encl, SG_OwnNode) sites ->
+  forall c2 e2 g2, In (c2, e2, g2) sites -> c2 = encl -> g2 <> SG_None /\ g2 <> SG_Internal.
+Proof. exact routes_own_node_needs_vetted_callers. Qed.
+Print Assumptions C11_routes_own_node_needs_vetted_callers.
+
+Theorem C11_visible_test_sites_lock :
+  visible_test_sites = ["converter::convert_doc"; "converter::convert_element"; "converter::convert_clip_path_elements";
+                        "text::collect_text_chunks_impl"].
+Proof. exact visible_test_sites_lock. Qed.
+Print Assumptions C11_visible_test_sites_lock.
+
 (* ------------------------------------------------------------------ non-vacuity *)
 Definition ex_attrs : attrs :=
   {| a_id := "r"; a_display_none := false; a_ts_valid := true; a_ts_identity := true; a_req_ext := false;
@@ -422,3 +464,23 @@ Proof.
   apply ilJ_cons; [apply insJ_same|].
   apply ilJ_junk; [split; [vm_compute; reflexivity | intros H; vm_compute in H; discriminate]|]. apply ilJ_nil.
 Qed.
+
+(* seed C11-12's shape: use_node::convert called in the clip loop before the visibility test is a SG_None site *)
+Example C11_ex_unguarded_site_rejected :
+  routes_guarded (("use_node::convert", "converter::convert_clip_path_elements", SG_None) :: call_sites) = false /\
+  In ("use_node::convert", "converter::convert_clip_path_elements", SG_VisibleBefore) call_sites.
+Proof. split; [vm_compute; reflexivity | vm_compute; tauto]. Qed.
+(* linked definitions: three users of <mask id="mL" mask="url(#m)"> (both objectBoundingBox): the outer id is generated BEFORE the
+   linked mask is resolved (mask_steps), so the users receive mL, mask1, mask3 (mask2 / mask4 go to the copies of m) *)
+Definition ex_masks_l : defs_t := [("m", mask_obb "m"); ("mL", with_link (mask_obb "mL") "m" false)].
+Definition ex_masked_l : node :=
+  Node (Some T_Rect)
+    {| a_id := "r"; a_display_none := false; a_ts_valid := true; a_ts_identity := true; a_req_ext := false;
+       a_features_known := true; a_syslang_ok := true; a_opacity := 1; a_blend_normal := true; a_isolate := false;
+       a_clip := None; a_mask := Some "mL"; a_filter := FA_Absent;
+       a_width := 10; a_height := 10; a_r := 0; a_rx := 0; a_ry := 0; a_npoints := 0 |} NNil.
+Example C11_ex_linked_mask_ids :
+  map (fun n => match n with OGroup _ p _ => gp_mask p | _ => None end)
+      (og_ch (snd (simc_children fmt9 [] ex_masks_l (NCons ex_masked_l (NCons ex_masked_l (NCons ex_masked_l NNil))) true false ex_st0 empty_cache root_group))) =
+  [Some "mL"; Some "mask1"; Some "mask3"].
+Proof. vm_compute. reflexivity. Qed.
